@@ -253,7 +253,7 @@ def exc_code_name(name):
 
 
 # ----------------------------------------------------------------------------- model side
-VARIANT = "unchanged"     # Coq `cfg` the real code is compared with; set from the source by generate()
+VARIANT = None            # Coq `cfg` the real code is compared with; set from the source by generate()
 
 _OLD = {"while": "inp.type != out.type", "res": "results[output_index[nw_inp.type]] = nw_inp",
         "out": "out = nw_out", "fin": "results[output_index[src_types[idx]]] = out"}
@@ -355,8 +355,15 @@ def coq_moves(moves):
     return coq_list(f"mkM {coq_Z(v)} {coq_Z(s)} {coq_Z(d)} {coq_Z(w)}" for v, s, d, w in moves)
 
 
+def variant():
+    global VARIANT
+    if VARIANT is None:
+        VARIANT = "(mkCfg " + " ".join(coq_bool(f) for f in detect_variant()) + ")"
+    return VARIANT
+
+
 def coq_expr(case):
-    return f"c20_case {VARIANT} {coq_moves(case['moves'])} {coq_list(coq_Z(f) for f in (case.get('free') or []))}"
+    return f"c20_case {variant()} {coq_moves(case['moves'])} {coq_list(coq_Z(f) for f in (case.get('free') or []))}"
 
 
 # enumerators mirrored from coq/C20/Enc.v (same order)
@@ -434,7 +441,7 @@ def sweep_shard(all_, first, iregs, fregs, free):
              for gi in graphs(iregs) if sel(gi) for gf in graphs(fregs) for p in orders(all_, gi, gf)]
     fst = "None" if first is None else f"(Some {coq_Z(first)})"
     z = lambda l: coq_list(coq_Z(x) for x in l)
-    return (f"c20_sweep_h {VARIANT} {'true' if all_ else 'false'} {fst} {z(iregs)} {z(fregs)} {z(free)}", cases)
+    return (f"c20_sweep_h {variant()} {'true' if all_ else 'false'} {fst} {z(iregs)} {z(fregs)} {z(free)}", cases)
 
 
 _sampled = set()
@@ -707,33 +714,35 @@ META = {
     "design_ref": "DESIGN.md section 8.C20",
     "technique": "Coq proof of the lowering algorithm (tree walk, cycle breaking, xor-swap chain) against a RISC-V register machine + exhaustive model-vs-code correspondence on the emitted operation lists",
     "level_text": (
-        "Theorems in coq/Props/C20.v. For the algorithm with the two proposed repairs (`lower repaired`), for EVERY "
+        "Theorems in coq/Props/C20.v. For the tree as it is now (C20-1 + C20-2 applied, model `lower repaired`), for EVERY "
         "well-formed parallel move (any number of registers, any mix of chains, fan-outs, cycles, self-moves, integer "
         "and float registers, any free list, any operand order): if a sequence is emitted then after executing it every "
         "destination holds the old value of its source (C20_simultaneous) and no register other than destinations and "
         "designated free registers changes (C20_frame); the loops terminate, the only exception is PassFailedException and "
         "only for an unallocated register, an unsupported width or a float cycle without free float register "
         "(C20_failure_reported), those impossible cases always fail (C20_fails_when_impossible) and everything else "
-        "succeeds (C20_success). For the pinned tree (`lower unchanged`, the model the real code is compared with) the full "
-        "statements are REFUTED (C20_frame_refuted: a read-only tree root is used as cycle scratch; "
-        "C20_simultaneous_refuted: the xor-swap chain rotates cycles of length >= 3 the wrong way) and the partial theorem "
-        "C20_partial holds: whenever every cycle has a designated free register of its kind (in particular for every "
-        "acyclic graph) the pinned code emits exactly what the repaired algorithm emits. Which variant of the model the "
-        "working tree is compared with (pinned / one repair / both repairs) is decided on every run by a fail-closed `ast` "
-        "recognition of the two statements the repairs touch (coverage.model_variant). The model is tied to the code by "
-        "exhaustive sweeps over all move graphs on 3-4 integer and 2 float registers with every operand order and free "
-        "set, comparing the emitted operation lists exactly, plus graphs through `zero`, shared registers, per-operand "
-        "widths and random larger/malformed inputs."),
+        "succeeds (C20_success). For the tree with the further proposed repairs C20-3 (moves into zero), C20-4 (counter "
+        "keyed by register) and C20-5 (width per move) -- model `lower repaired_all` -- the same five statements are proved "
+        "under the weaker hypotheses `wf_all` (several SSA values per register, per-operand widths): C20_all_*. For the "
+        "originally pinned tree (`lower unchanged`) the full statements are REFUTED (C20_frame_refuted, "
+        "C20_simultaneous_refuted) and C20_partial holds: whenever every cycle has a designated free register of its kind "
+        "the pinned code emits exactly what the repaired algorithm emits. Which variant of the model the working tree is "
+        "compared with is decided on every run by a fail-closed `ast` recognition of the statements the five repairs touch "
+        "(coverage.model_variant). The model is tied to the code by exhaustive sweeps over all move graphs on 3-4 integer "
+        "and 2 float registers with every operand order and free set, comparing the emitted operation lists exactly, plus "
+        "graphs through `zero`, shared registers, per-operand widths and random larger/malformed inputs."),
     "level_note": (
         "Trusted: Coq kernel; the hand-written model (Python dicts as functions, SSA values as (identity, register), "
         "registers as integers); RISC-V semantics of mv/fmv.s/fmv.d/xor as written in Model.v `step`; correspondence harness. "
-        "Hypotheses of the theorems (`wf`, Spec.v): kinds match and destinations are distinct (verifier; the verifier exempts "
-        "`zero`, the theorems do not), one SSA value per source register, one width per SSA value, designated free "
-        "registers are not operand/result registers and not `zero`, `zero` is not overwritten. Inputs outside `wf` that "
-        "the verifier accepts are swept by the harness and recorded as known findings kf-3..kf-6. Not covered by the "
-        "partial theorem for the pinned tree: integer cycles resolved by xor swaps (2-cycles are right, longer ones wrong; "
-        "covered by the sweep). Not modelled: ABI register aliases (x0 vs zero), the rewriter's insertion point and name "
-        "hints, results of the parallel move that have no use."),
+        "Hypotheses `wf` (Spec.v): kinds match and destinations are distinct (verifier; the verifier exempts `zero`, the "
+        "theorems do not), one SSA value per source register, one width per SSA value, designated free registers are not "
+        "operand/result registers and not `zero`, `zero` is not overwritten; `wf_all` drops the two SSA-value hypotheses. "
+        "Partial: `zero` as a repeated destination / overwritten `zero` (accepted by the code with C20-3) is outside both "
+        "`wf` and `wf_all`; it is covered by the exhaustive zero-register sweep, the oracle and four vm_compute Examples. "
+        "Inputs outside `wf` that the verifier accepts are recorded as known findings kf-3..kf-6 for the current tree. "
+        "Not covered by the partial theorem for the originally pinned tree: integer cycles resolved by xor swaps. Not "
+        "modelled: ABI register aliases (x0 vs zero), the rewriter's insertion point and name hints, results of the "
+        "parallel move that have no use."),
 }
 COQ_TARGETS = ["C20/Enc.vo", "C20/Proofs.vo", "Props/C20.vo"]
 REQ = ["C20.Model", "C20.Enc"]
